@@ -207,34 +207,98 @@ def parse(pattern, flags=0):
         raise AnalysisError("regex does not parse: %r: %s" % (pattern, e))
 
 
+def _sub_ic(av, ic):
+    """Case-insensitivity inside a group with scoped flags (?i:...) /
+    (?-i:...); any other scoped flag is outside the vocabulary."""
+    add, rem = av[1], av[2]
+    if (add | rem) & ~re.IGNORECASE:
+        raise AnalysisError("inline regex flags other than 'i' unsupported")
+    if add & re.IGNORECASE:
+        return True
+    if rem & re.IGNORECASE:
+        return False
+    return ic
+
+
 def charsets_of_pattern(pattern):
     out = []
 
-    def visit(sub):
+    def visit(sub, ic):
         for op, av in sub:
             if op in (sre_c.LITERAL, sre_c.NOT_LITERAL, sre_c.IN, sre_c.ANY):
-                out.append(_item_charset(op, av))
+                out.append(_item_charset(op, av, ic))
             elif op == sre_c.BRANCH:
                 for alt in av[1]:
-                    visit(alt)
+                    visit(alt, ic)
             elif op == sre_c.SUBPATTERN:
-                visit(av[3])
+                visit(av[3], _sub_ic(av, ic))
             elif op in (sre_c.MAX_REPEAT, sre_c.MIN_REPEAT):
-                visit(av[2])
+                visit(av[2], ic)
             elif op == sre_c.AT:
                 pass
             else:
                 raise AnalysisError("regex construct %s outside the analysable "
                                     "vocabulary" % op)
     p = parse(pattern)
-    if p.state.flags & (re.IGNORECASE | re.MULTILINE | re.DOTALL | re.VERBOSE
-                        | re.ASCII):
+    if p.state.flags & (re.MULTILINE | re.DOTALL | re.VERBOSE | re.ASCII):
         raise AnalysisError("regex flags not supported: %r" % pattern)
-    visit(p)
+    visit(p, bool(p.state.flags & re.IGNORECASE))
     return out
 
 
-def _item_charset(op, av):
+_TOLOWER = None
+
+
+def cs_ignorecase(cs):
+    """The characters a (positive) set matches under re.IGNORECASE for str
+    patterns, as CPython's compiler and matcher define it: the set is closed
+    to T = {tolower(x)} + the extra cases of re._casefix for x in the set, and
+    a subject character ch matches iff tolower(ch) is in T (tolower is the
+    simple one-to-one lower-case mapping).  Tables only; no pattern is run."""
+    global _TOLOWER
+    import _sre
+    try:
+        from re._casefix import _EXTRA_CASES as extra
+    except ImportError:   # pragma: no cover
+        from sre_compile import _ignorecase_fixes as extra
+    if _TOLOWER is None:
+        low = _sre.unicode_tolower
+        _TOLOWER = [low(c) for c in range(0x110000)]
+    T = set()
+    for lo, hi in cs:
+        for x in range(lo, hi + 1):
+            l = _TOLOWER[x]
+            T.add(l)
+            T.update(extra.get(l, ()))
+    out = []
+    start = None
+    for c in range(0x110000):
+        if _TOLOWER[c] in T:
+            if start is None:
+                start = c
+        elif start is not None:
+            out.append((start, c - 1))
+            start = None
+    if start is not None:
+        out.append((start, 0x10FFFF))
+    return tuple(out)
+
+
+def _item_charset(op, av, ic=False):
+    if ic:
+        # decide the positive set, close it under case, then negate
+        if op == sre_c.LITERAL:
+            return cs_ignorecase(((av, av),))
+        if op == sre_c.NOT_LITERAL:
+            return cs_neg(cs_ignorecase(((av, av),)))
+        if op == sre_c.ANY:
+            return NO_NL
+        if op == sre_c.IN:
+            neg = any(iop == sre_c.NEGATE for iop, _ in av)
+            pos = _item_charset(op, [x for x in av
+                                     if x[0] != sre_c.NEGATE])
+            pos = cs_ignorecase(pos)
+            return cs_neg(pos) if neg else pos
     if op == sre_c.LITERAL:
         return ((av, av),)
     if op == sre_c.NOT_LITERAL:
@@ -292,34 +356,33 @@ def build_nfa(pattern):
                     return False
         return True
 
-    def seq(sub, s):
+    def seq(sub, s, ic=False):
         for op, av in sub:
-            s = item(op, av, s)
+            s = item(op, av, s, ic)
         return s
 
-    def item(op, av, s):
+    def item(op, av, s, ic=False):
         if op in (sre_c.LITERAL, sre_c.NOT_LITERAL, sre_c.IN, sre_c.ANY):
             t = nfa.new()
-            nfa.chr[s] = (_item_charset(op, av), t)
+            nfa.chr[s] = (_item_charset(op, av, ic), t)
             return t
         if op == sre_c.BRANCH:
             end = nfa.new()
             for alt in av[1]:
                 a = nfa.new()
                 nfa.eps[s].append((a, None))
-                e = seq(alt, a)
+                e = seq(alt, a, ic)
                 nfa.eps[e].append((end, None))
             return end
         if op == sre_c.SUBPATTERN:
             group = av[0]
-            if av[1] or av[2]:
-                raise AnalysisError("inline regex flags unsupported")
+            ic = _sub_ic(av, ic)
             if group is None:
-                return seq(av[3], s)
+                return seq(av[3], s, ic)
             nm = names.get(group, group)
             a = nfa.new()
             nfa.eps[s].append((a, ("open", nm)))
-            e = seq(av[3], a)
+            e = seq(av[3], a, ic)
             t = nfa.new()
             nfa.eps[e].append((t, ("close", nm)))
             return t
@@ -329,7 +392,7 @@ def build_nfa(pattern):
             for _ in range(lo):
                 a = nfa.new()
                 nfa.eps[s].append((a, None))
-                s = seq(body, a)
+                s = seq(body, a, ic)
             if hi == sre_c.MAXREPEAT:
                 if nullable(body):
                     raise AnalysisError("unbounded repeat of a nullable body "
@@ -342,7 +405,7 @@ def build_nfa(pattern):
                     nfa.eps[loop] += [(b, None), (out, None)]
                 else:
                     nfa.eps[loop] += [(out, None), (b, None)]
-                e = seq(body, b)
+                e = seq(body, b, ic)
                 nfa.eps[e].append((loop, None))
                 return out
             out = nfa.new()
@@ -352,7 +415,7 @@ def build_nfa(pattern):
                     nfa.eps[s] += [(b, None), (out, None)]
                 else:
                     nfa.eps[s] += [(out, None), (b, None)]
-                s = seq(body, b)
+                s = seq(body, b, ic)
             nfa.eps[s].append((out, None))
             return out
         if op == sre_c.AT:
@@ -367,8 +430,10 @@ def build_nfa(pattern):
         raise AnalysisError("regex construct %s outside the analysable "
                             "vocabulary" % op)
 
+    if p.state.flags & (re.MULTILINE | re.DOTALL | re.VERBOSE | re.ASCII):
+        raise AnalysisError("regex flags not supported: %r" % pattern)
     nfa.start = nfa.new()
-    end = seq(p, nfa.start)
+    end = seq(p, nfa.start, bool(p.state.flags & re.IGNORECASE))
     nfa.accept = end
     return nfa
 
